@@ -229,6 +229,9 @@ func workerScratch() string {
 	if d == "" {
 		d = filepath.Join(core.ScratchBase(), fmt.Sprintf("verif-scratch-%d", os.Getpid()))
 	}
+	// every disk run happens below a directory whose name contains look-alikes of the set extensions: a path built by
+	// replacing the first ".par" / ".par2" / ".vol" of the whole path instead of the file's own extension goes astray here
+	d = filepath.Join(d, "w.par.par2.p01.vol00+01.PAR2.d")
 	os.MkdirAll(d, 0755)
 	return d
 }
